@@ -631,6 +631,11 @@ pub fn gen_cfg(prop: &str, seed: u64) -> RunCfg {
             let mut ops = vec![];
             for _ in 0..n {
                 ops.extend(gen_history(&mut g, &mut world, 1, &w));
+                if g.rng.pct(14) {
+                    if let Some(op) = walk_after(&mut g, &mut world) {
+                        ops.push(op);
+                    }
+                }
                 if g.rng.pct(12) {
                     let mut blk = reader_block(&mut g, &world.m[0], 0);
                     if spec.has_phys() && g.rng.pct(90) {
@@ -788,6 +793,30 @@ pub fn handle_script(g: &mut Gen, spec: &Spec) -> Vec<Op> {
         }
     }
     ops
+}
+
+/// a walk whose entries change between listing and visit
+pub fn walk_after(g: &mut Gen, world: &mut World) -> Option<Op> {
+    let m = &world.m[0];
+    let d = g.target(m, Tc::NonEmptyDir).or_else(|| if m.children("").is_empty() { None } else { Some(String::new()) })?;
+    let descs = m.descendants(&d);
+    let mut muts = vec![];
+    for _ in 0..g.rng.range(1, 2) {
+        let t = descs[g.rng.below(descs.len())].clone();
+        let mu = if m.is_dir(&t) {
+            if g.rng.pct(70) {
+                Op::RemoveDirAll(P::new(&t))
+            } else {
+                Op::CreateDir(P::new(&format!("{}/{}", t, g.name())))
+            }
+        } else {
+            Op::RemoveFile(P::new(&t))
+        };
+        muts.push(mu);
+    }
+    let op = Op::WalkAfter { p: P::new(&d), muts };
+    world.apply(&op);
+    Some(op)
 }
 
 /// open a reader on a file (or sometimes something else), seek/read a little, drop it
@@ -1251,6 +1280,13 @@ fn shrink_op(op: &Op) -> Vec<Op> {
                         out.push(Op::Write { p: p.clone(), append: *append, script: s });
                     }
                 }
+            }
+        }
+        Op::WalkAfter { p, muts } => {
+            for i in 0..muts.len() {
+                let mut m2 = muts.clone();
+                m2.remove(i);
+                out.push(Op::WalkAfter { p: p.clone(), muts: m2 });
             }
         }
         Op::HWrite(s, pl) => {
